@@ -93,6 +93,12 @@ def check(ctx):
             need = [fact_key('resp', True), fact_key('resp.ack', True)] + [fact_key(x, True) for x in extra]
             ctx.inst(rule, sps, 'guard:' + attr, all(k in keys for k in need) and all(g.dominates(s[0], n) for s in sends),
                      '%s may flip only after the transmission, under %s; guards %s' % (attr, ['resp', 'resp.ack'] + extra, sorted(keys)))
+        if attr == U:
+            # ... and on EVERY acknowledged transmission: a further condition on the flip (a payload in the ack, say) makes the next
+            # frame go out under the old number although the peer took this one - it is dropped as a duplicate
+            for n in st:
+                more = [k for k in g.fact_keys_at(n) if k not in (fact_key('resp', True), fact_key('resp.ack', True)) and not k[0].startswith('resp is') and k[0] not in ('resp', 'resp.ack')]
+                ctx.inst(rule, sps, 'flip-on-every-ack:' + attr, not more, '%s flips under further conditions: %s' % (attr, more))
         ctx.inst(rule, sps, 'single-store:' + attr, len(st) == 1, 'exactly one flip site for %s' % attr)
     others = [(f.qualname, norm(s)) for f in T.methods.values() if f.name not in ('_send_packet_safe', '__init__', 'run') for s in walk_own(f.node)
               if isinstance(s, (ast.Assign, ast.AugAssign)) and norm(s.targets[0] if isinstance(s, ast.Assign) else s.target) in (U, D)]
@@ -101,7 +107,7 @@ def check(ctx):
     ctx.inst('R4', sps, 'one-transmission', len(sends) == 1 and not any(isinstance(x, (ast.For, ast.While)) for x in walk_own(sps.node)), 'exactly one radio transmission per call, not in a loop')
     rets = [norm(s.value) for s in walk_own(sps.node) if isinstance(s, ast.Return)]
     rv = [s for s in walk_own(sps.node) if isinstance(s, ast.Assign) and sends and s.value is sends[0][1]]
-    ctx.inst('R4', sps, 'returns-radio-result', len(rv) == 1 and rets == [norm(rv[0].targets[0])] and [norm(a) for a in sends[0][1].args] == [pkp], 'the radio result for this very frame is returned')
+    ctx.inst('R4', sps, 'returns-radio-result', len(rv) == 1 and bool(rets) and set(rets) == {norm(rv[0].targets[0])} and [norm(a) for a in sends[0][1].args] == [pkp], 'the radio result for this very frame is returned')
 
     # ================================= run() ======================================================
     run = T.method('run')
